@@ -566,7 +566,7 @@ func main() {
 		base := vlib.Scratch()
 		var done int64
 		vlib.Parallel(W, W, func(wk int) {
-			dir := filepath.Join(base, fmt.Sprintf("cache%d", wk))
+			dir := filepath.Join(base, fmt.Sprintf("cache%d%s", wk, []string{"", "[ab]", " %s", "?*"}[wk%4])) // a directory's own name is just a name
 			os.MkdirAll(dir, 0o777)
 			c, err := cache.Open(dir)
 			if err != nil {
